@@ -1,6 +1,23 @@
 (* EngineRefineFinal.v -- assembly: every component statement instantiated with its proof; the
    unconditional top-level theorems about the engine model (RModel/Engine.v after fix b29ee69)
-   against the reference inflater (Spec/Inflate.v). *)
+   against the reference inflater (Spec/Inflate.v).
+
+   Statements in RModel/EngineRefineSpec*.v that were REFUTED or superseded while proving
+   (the Definitions are kept where they were; nothing depends on them being true):
+   - EngineRefineSpecBlock.decodeHuffman_refine_statement, EngineRefineSpecBlock2.
+     decodeHuffman_refine2_statement: false as written (conclusion `ov s2 = ov0` with only
+     writeOverflowLen = 0 assumed; a stale writeOverflowLits survives): refuted in
+     proofs/EngineRefineHuffCex.v; proved form: EngineRefineSpecBlock3.
+     decodeHuffman_refine3_statement (extra hypothesis writeOverflowLits (ov s) = 0).
+   - EngineRefineSpecHdr.readHeader_refine_statement: not derivable without the invariant
+     hdr_ok_staged (stale bits of the bit buffer must not refer to input beyond the staged
+     bytes); proved form: EngineRefineSpecTop.readHeader_refine_body.
+   - EngineRefineSpecTop.decomp_refine_statement / step_refine_statement: premises phrased
+     with the refuted decodeHuffman_refine2_statement; proved forms:
+     EngineRefineSpecFinal.decomp_body / step_refine_final_statement.
+   - "io.EOF is only reported at the end of the final block" was FALSE for the engine before
+     fix b29ee69 (see EngineRefineSpecFinal.v): found by this proof; the model and the Go code
+     were fixed and the statement is now proved unconditionally (erun_sound). *)
 From Coq Require Import List NArith ZArith Bool.
 From Verif Require Import Bits Huffman Inflate InflateSpec InflateMono.
 From Verif Require Import Base EngineTables Engine.
